@@ -386,8 +386,10 @@ def assign_stmt(draw, env, depth, allow_hybrid):
     else:
         lhs = ("opnd", draw(st.sampled_from([a for a in env.aliases if a.kind != "pc"])))
     if compound:
-        op = draw(st.sampled_from(ASSIGN_OPS))
-        if op in ("<<=", ">>="):
+        op = draw(st.sampled_from(ASSIGN_OPS + (["/=", "%="] if "div" in f else [])))
+        if op in ("/=", "%="):
+            rhs = ("bin", "|", draw(expr(env, depth - 1, False)), num(1))
+        elif op in ("<<=", ">>="):
             w = promote(_ty(lhs, env))[1]
             rhs = ("bin", "&", draw(expr(env, depth - 1, False)), num(min(w, 32) - 1))
         else:
